@@ -57,10 +57,12 @@ THEOREMS = [
 ]
 TRUSTED = [
     "Lean 4.33.0 kernel; axioms limited to propext, Classical.choice, Quot.sound (audited by #print axioms on every run)",
-    "hand transcription of LenaSequence.__init__ (_data_seq), Sequence.__init__/run, adapters.Run.__init__/_call_run/_fc_run, "
-    "is_fill_compute_el, Source.__init__/__call__, meta.flatten into LenaModel/Model/C01.lean, and of the run methods of the "
-    "element vocabulary (Filter, Slice, Count, RunIf, Reverse, End, Sum, Mean, StoreFilled, Split with sequence branches, "
-    "Variable) into LenaModel/Model/C01Stream.lean + Flow.lean, validated by this correspondence check",
+    "hand transcription of LenaSequence.__init__ (_data_seq, __iter__/__len__), Sequence.__init__/run, adapters.Run.__init__ "
+    "(with and without run=) /_call_run/_fc_run, is_fill_compute_el, Source.__init__/__call__, meta.flatten, "
+    "_get_seq_with_type / FillComputeSeq.__init__ / FillSeq.__init__ / adapters.FillInto.__init__ (as far as Split uses them) "
+    "into LenaModel/Model/C01.lean, and of the run methods of the element vocabulary (Filter, Slice, Count, RunIf, Reverse, "
+    "End, Sum, Mean, StoreFilled, Split with sequence and fill_compute branches, Variable) with the state they keep "
+    "between runs into LenaModel/Model/C01Stream.lean + Flow.lean, validated by this correspondence check",
     "Python generator semantics as modelled by streams (values yielded + terminating exception; exceptions of a call "
     "versus exceptions of the iteration), itertools.islice / collections.deque as transcribed (validated likewise)",
     "JSON line protocol encoders (harness/props/c01.py, drivers/C01.lean)",
@@ -69,24 +71,41 @@ ASSUMPTIONS = [
     "finite flows; the consumer drains the returned iterator (partial consumption is the subject of C02)",
     "flows handed from element to element are iterators (run/compute are generators, as in all lena elements); a compute() "
     "that returns a list is outside the vocabulary",
-    "an element object whose run keeps state between calls (Count, accumulators behind adapters.Run) is run once per "
-    "object; inside RunIf and Split branches (run once per value / per buffer) only stateless elements are generated",
-    "values observed through the data/context protocol of lena.flow.get_data_context; Mean's float result is compared as "
-    "float(n)/float(d) computed from the model's exact pair (no arithmetic is applied to it afterwards)",
-    "Python attribute lookup (hasattr/callable) is represented by capability flags read from the real objects",
+    "an element object that is run again (inside RunIf: once per selected value; in a Split sequence branch: once per "
+    "buffer; one Sequence object run several times) is described by the complete inputs of its earlier runs: where runs "
+    "repeat, no Slice (the only element that stops pulling early) is generated after an element with state - which "
+    "values an element has seen when its consumer stops early is the pull accounting of C02",
+    "value semantics: where runs repeat StoreFilled is generated only with yield_as_a_group=True (with False it yields its "
+    "stored value objects again, whose contexts later elements changed in place in the earlier run - aliasing is C04)",
+    "Split: branches given as tuples, of type 'sequence' or 'fill_compute' (FillInto-able elements, a fill/compute "
+    "element, a sequence after it); before the fill/compute element only callables, Variable, Filter, RunIf over stateless "
+    "elements are generated (Slice.fill_into / Count.fill_into and LenaStopFill are C17/C05, fill_request and source "
+    "branches C16/C03)",
+    "a Sequence nested directly in a Sequence that is iterated as first element of a Source is not generated (the generic "
+    "model has no value for that object); element objects travelling as values are observed by their class name",
+    "values observed through the data/context protocol of lena.flow.get_data_context; a float is compared exactly when it "
+    "is float(n)/float(d) of Mean or passes through 0 + f / f / 1.0 unchanged; any other float arithmetic (Sum/Mean over "
+    "floats) is predicted as 'some float' and accepted as such",
+    "Python attribute lookup (hasattr/callable/isinstance) is represented by capability flags read from the real objects",
 ]
-RULE = ("exhaustive: capability flags of every vocabulary kind and of all 108 synthetic classes (run/fill/compute in "
-        "{absent, non-callable, method} x callable x _has_no_data), each of them bare and wrapped in adapters.Run as the only "
-        "element, between two elements of a Sequence (4 groupings), as first element and in the tail of a Source (every cut "
-        "point); all ordered pairs of the 43 representative elements x 2 flows (quick: alternately one of them) x 3 "
-        "groupings; every representative alone on a flow whose iterator raises / an empty flow / a one-value flow; ALL "
-        "bracketings (nodes of arity >= 2: 2, 6, 22, in thorough also 90 per list) of seeded random element lists of length "
-        "2..4 (thorough ..5). sampled (seeded; quick 2500 + 1000, thorough 150000 + 50000): programs of length 0..8 over the "
-        "whole vocabulary (nested RunIf/Split/Sequence to depth 3) with 3-6 random bracketings each (with empty and unary "
-        "nested Sequences), flows of length 0..8 of ints, strings, lists and (data, context) pairs, handed over as iterator "
-        "or as list, optionally ending in an exception raised by the input iterator; Source(first, *els) with every cut "
-        "point between tail and following Sequence. Non-trivial: at least two data elements and (a value yielded or an "
-        "exception).")
+RULE = ("exhaustive: capability flags (run, __call__, fill, compute, _has_no_data, __iter__, fill_into, _can_break_flow, "
+        "Split) of every vocabulary kind and of all 108 synthetic classes (run/fill/compute in {absent, non-callable, "
+        "method} x callable x _has_no_data), each of them bare and wrapped in adapters.Run as the only element, between "
+        "two elements of a Sequence (4 groupings), as first element and in the tail of a Source (every cut point), and "
+        "inside a Sequence that is the first element of a Source; Source(); all ordered pairs of the 51 representative "
+        "elements (incl. RunIf/Split around Count and accumulators, Split with fill_compute branches, Run(el, run=...), "
+        "Run(None, run=...)) x 2 flows (quick: alternately one of them) x 3 groupings; every representative alone on a "
+        "flow whose iterator raises / an empty flow / a one-value flow; ALL bracketings (nodes of arity >= 2: 2, 6, 22, in "
+        "thorough also 90 per list) of seeded random element lists of length 2..4 (thorough ..5). sampled (seeded; quick "
+        "2500 + 700 + 300 + 1000, thorough 40000 + 12000 + 4000 + 15000): programs of length 0..8 over the whole "
+        "vocabulary (nested RunIf/Split/Sequence to depth 3, stateful elements inside them) with 3-6 random bracketings "
+        "each (with empty and unary nested Sequences), flows of length 0..8 of ints, strings, lists and (data, context) "
+        "pairs, handed over as iterator or as list, optionally ending in an exception raised by the input iterator; ONE "
+        "Sequence object run on 2-3 flows in a row, flat and nested at a cut; Split over stateless sequences against both "
+        "model forms; Source(first, *els) with every cut point, with arguments without data before the first element, "
+        "with a Sequence as first element. Per case also: conversion chosen per data element against the documented "
+        "precedence, len / __getitem__ / __iter__ / flatten of the first argument, the callable composition for programs "
+        "of callables. Non-trivial: at least two data elements and (a value yielded or an exception).")
 CASE_TIMEOUT = 10
 
 # ----------------------------------------------------------------------------------------
@@ -1497,9 +1516,12 @@ def shrink(case):
 # ---- MANIFEST texts ------------------------------------------------------------------------
 LEVEL_TEXT = ("Lean 4 theorems about a transcribed model of Sequence/Source/LenaSequence/adapters.Run/meta.flatten for ALL "
               "element lists, bracketings (any depth) and flows (no bound), over a stream model that keeps Python's lazy "
-              "exception order; the model is tied to /repo by a correspondence check over the real element vocabulary and "
-              "all 108 synthetic capability classes (exhaustive small scopes + seeded random programs), plus a direct oracle: "
-              "pairwise equality of all bracketings / Source forms and a hand-chained reference composition on the real code.")
+              "exception order, also for sequence objects that are run again with the state their elements keep (inside "
+              "RunIf, in Split branches); the model is tied to /repo by a correspondence check over the real element "
+              "vocabulary (incl. Split with sequence and fill_compute branches, stateful elements inside RunIf/Split, a "
+              "Sequence as first element of a Source) and all 108 synthetic capability classes (exhaustive small scopes + "
+              "seeded random programs), plus a direct oracle: pairwise equality of all bracketings / Source forms / "
+              "repeated runs and a hand-chained reference composition on the real code.")
 LEVEL_NOTE = ("Trusted: Lean kernel (+ propext, Classical.choice, Quot.sound), the hand transcription validated by the "
               "correspondence run, generator/islice/deque semantics as transcribed, the JSON protocol.")
 TECHNIQUE = "Lean 4 proof over hand-written model + correspondence check (exhaustive small scopes, seeded sampling)"
